@@ -536,6 +536,31 @@ def live_notifications(P, R, rule='C15.GRD.5'):
                  key='live:%s' % f.name)
     R.floor(rule, 5, 'hook call sites')
 
+def list_default_condition(P, R, rule='C15.MPT.9'):
+    """An empty list is a value the file can give (`name ();`).  The registration of a list therefore cannot decide
+    "no value, take the default" from the emptiness of the list alone: the statement that copies the default into the
+    live list is guarded by something that tells an omitted list from an empty one (the node's present bit)."""
+    unit = P.need_fn('conf_read').unit
+    n = 0
+    for f in P.unit_fns(unit):
+        if not f.name.startswith('conf_register_'):
+            continue
+        for s in f.calls('string_vector_copy'):
+            a = s.ev['args']
+            if len(a) < 2:
+                continue
+            dst = a[0].get('e') if a[0].get('k') == 'un' and a[0].get('op') == '&' else a[0]
+            src = a[1].get('e') if a[1].get('k') == 'un' and a[1].get('op') == '&' else a[1]
+            if not (isinstance(dst, dict) and dst.get('k') == 'mem' and dst.get('field') == 'value' and isinstance(src, dict) and src.get('k') == 'mem' and src.get('field') == 'def_value'):
+                continue
+            gs = f.guards(s.bid)
+            own = [g for g in gs if any(isinstance(x, dict) and x.get('k') == 'mem' and x.get('field') in ('size', 'used', 'vec') for x in walk(g[0]))]
+            other = [g for g in gs if g not in own and any(isinstance(x, dict) and x.get('k') == 'mem' and x.get('field') == 'present' for x in walk(g[0]))]
+            n += 1
+            R.ob(rule, bool(other), s, 'in %s the default is copied into the live list only for a list the file does not give (guards: %s)' % (f.name, '; '.join('%s %s %s' % (sx(g[0]), g[1], sx(g[2])) for g in gs) or 'none'),
+                 key='list-default:%s' % f.name)
+    R.floor(rule, 2, 'list registrations')
+
 def zero_defaults(P, R, rule='C15.TAB.2'):
     """Nodes made by the parser are zero-filled and never given a subtype (only registration assigns one): the
     enumerator that means "plain text" must therefore be 0, or a setting nobody registered is parsed as a boolean /
@@ -846,6 +871,7 @@ def run(P, R, tier):
     alias_established(P, R)
     defaults_at_registration(P, R)
     live_notifications(P, R)
+    list_default_condition(P, R)
     rules.vector_walks(P, R, 'C15.BND.2', units=('src/config.c', 'src/common.c'))
     R.floor('C15.BND.2', 3, 'vector walks in the configuration code')
     exhaustive(P, R)
